@@ -1,3 +1,34 @@
+/-
+  Props/C16LinearRef.lean — C16: the harness's independent REFERENCE for the unadjusted path of all-linear control points
+  (`ref_linear_natural` in the Rust test harness) is exactly what the MODEL's `calculate_path` computes.
+
+      fn ref_linear_natural(pts: &[PathControlPoint]) -> Vec<Pos> {
+          let mut out = Vec::new(); let mut start = 0;
+          for i in 0..pts.len() {
+              if pts[i].path_type.is_none() && i + 1 < pts.len() { continue; }
+              let seg = &pts[start..=i];
+              if seg.len() == 1 { out.push(seg[0].pos); }
+              else { let skip = out.last().map_or(false, |l| *l == seg[0].pos);
+                     out.extend(seg.iter().skip(usize::from(skip)).map(|p| p.pos)); }
+              start = i;
+          }
+          out }
+
+  * `refLinearNaturalBy eq` — structurally recursive transcription, parametrised by the position equality (`refGo`: state
+    `out` and the positions `seg` of `pts[start..i]`; `refEmit` = the `else` part of the body). `refLinearNatural` uses the
+    model's `Pos.eq` (component-wise `Scalar.eq`: IEEE `==`, so `−0 = +0`, `NaN ≠ NaN`) — the equality `dedupJoint` uses; a
+    `[BEq (Pos P)]` reading is `refLinearNaturalBy (· == ·)`. `refLinearNaturalIdx` is the literal index-based transcription
+    (state `(out, start)`, fold over `0..len`), `refLinearNaturalIdx_eq`: the two are the same function.
+  * **`calculatePath_linear_eq_ref`** (every arithmetic, mode, fuel, buffers): `AllLinear points` and
+    `calculatePath … = .ok (b, opt)` ⟹ `b.path = refLinearNatural points ∧ opt = 0`.
+  * about the reference: **`ref_eq_positions`** (if no typed, non-last control point has a position that differs from
+    itself — no NaN joint — the path is the list of ALL positions), `ref_single_segment`, `ref_single_segment_nan`,
+    `ref_typed_last_no_extra` / `ref_last_type_irrelevant` (unconditional; seeded defect C16-o), `ref_length_le`.
+    On the model: `calculatePath_linear_positions`, `calculatePath_typed_last_no_extra`.
+  * FALSE without the no-NaN hypothesis: `|path| ≤ |points|` (`ref_length_le_false`, toy NaN scalar;
+    `calculatePath_nan_joint_float32`: the model on `Float32`, `(NaN,0) L, (1,0)` → 3 vertices): a joint whose position has a
+    NaN coordinate is not recognised as a repetition and stays twice in the path.
+-/
 import RosuModel.Props.C19DecodedLinear
 import RosuModel.Lemmas.ToyInt
 import RosuModel.Lemmas.ToyNaN
@@ -8,6 +39,8 @@ open Rosu.C19 (AllLinear)
 section Ref
 variable {P : Type}
 
+/-- what one non-skipped round of the loop appends: `seg` = positions of `pts[start..=i]`; a one-point segment is pushed,
+otherwise the first point is skipped when it equals the last emitted vertex. -/
 def refEmit (eq : Pos P → Pos P → Bool) (out seg : List (Pos P)) : List (Pos P) :=
   match seg with
   | [v] => out ++ [v]
@@ -17,6 +50,9 @@ def refEmit (eq : Pos P → Pos P → Bool) (out seg : List (Pos P)) : List (Pos
       | _, _ => false
     out ++ (if skip then seg.drop 1 else seg)
 
+/-- the loop of `ref_linear_natural`, by recursion on the control points still to visit: `out`, and the positions `seg` of
+`pts[start..i]` (the running segment WITHOUT the current point). `!rest.isEmpty` is `i + 1 < pts.len()`; after a round that
+is not skipped `start = i`, i.e. the running segment is `[p.pos]`. -/
 def refGo (eq : Pos P → Pos P → Bool) :
     List (Pos P) → List (Pos P) → List (PathControlPoint P) → List (Pos P)
   | out, _, [] => out
@@ -24,9 +60,11 @@ def refGo (eq : Pos P → Pos P → Bool) :
     if p.pathType.isNone && !rest.isEmpty then refGo eq out (seg ++ [p.pos]) rest
     else refGo eq (refEmit eq out (seg ++ [p.pos])) [p.pos] rest
 
+/-- `ref_linear_natural` with the equality of positions as a parameter. -/
 def refLinearNaturalBy (eq : Pos P → Pos P → Bool) (pts : List (PathControlPoint P)) : List (Pos P) :=
   refGo eq [] [] pts
 
+/-- `ref_linear_natural` with the model's (= Rust's derived `PartialEq`) equality of positions. -/
 def refLinearNatural [Scalar P] (pts : List (PathControlPoint P)) : List (Pos P) :=
   refLinearNaturalBy Pos.eq pts
 theorem refEmit_one (eq : Pos P → Pos P → Bool) (out : List (Pos P)) (v : Pos P) :
@@ -201,6 +239,8 @@ end RefFacts
 section Generic
 variable {P F : Type} [Scalar P] [Scalar F] [Cvt P F] [Trig F] [Trig P]
 
+omit [Trig P] in
+/-- `dedupJoint` in closed form on `path ++ seg` (it never panics there). -/
 theorem dedupJoint_append (path seg : List (Pos P)) :
     dedupJoint (path ++ seg) path.length = .ok (path ++
       (if (match path.getLast?, seg.head? with
@@ -226,6 +266,7 @@ theorem seg_succ {α : Type} (verts : List α) (s k : Nat) (v : α) (hs : s ≤ 
   rfl
 
 
+/-- one round of the model's segment loop at index `|pre|` = one round of the reference. -/
 theorem segBody_ref (fuel : Nat) (mode : GameMode) (points : List (PathControlPoint P)) (hl : AllLinear points)
     (pre rest : List (PathControlPoint P)) (p : PathControlPoint P) (st st1 : SegState P F)
     (hpts : points = pre ++ p :: rest) (hs : st.start ≤ pre.length)
@@ -282,6 +323,7 @@ theorem segBody_ref (fuel : Nat) (mode : GameMode) (points : List (PathControlPo
     simp only [if_true, Outcome.pure_eq_ok, Except.ok.injEq] at h
     exact ⟨fun _ => h.symm, fun h' => (by cases h')⟩
 
+/-- the model's loop from index `|pre|` on = the reference's recursion on the remaining control points. -/
 theorem segFold_ref (fuel : Nat) (mode : GameMode) (points : List (PathControlPoint P)) (hl : AllLinear points) :
     ∀ (suf pre : List (PathControlPoint P)) (st st' : SegState P F),
       points = pre ++ suf → st.start ≤ pre.length →
@@ -317,7 +359,9 @@ theorem segFold_ref (fuel : Nat) (mode : GameMode) (points : List (PathControlPo
       rw [refGo.eq_2, hc]
       simp only [if_true]
 
-/-- **`calculatePath_linear_eq_ref`** -/
+/-- **`calculatePath_linear_eq_ref`**: for control points whose path types are all linear (or absent) the model's
+`calculate_path` — every arithmetic, mode, fuel, scratch buffers — returns exactly the harness reference, and
+`optimized_len = 0.0`. -/
 theorem calculatePath_linear_eq_ref (fuel : Nat) (mode : GameMode) (points : List (PathControlPoint P))
     (bufs b : CurveBuffers P F) (opt : F) (hl : AllLinear points)
     (h : calculatePath fuel mode points bufs = .ok (b, opt)) :
@@ -422,5 +466,90 @@ theorem refLinearNaturalIdx_eq (eq : Pos P → Pos P → Bool) (pts : List (Path
   simpa using this
 
 end Idx
+
+/-! ## kernel-evaluated examples (toy `Int` arithmetic, Lemmas/ToyInt.lean; NaN: Lemmas/ToyNaN.lean and `Float32`) -/
+
+section Examples
+open Rosu.Toy
+
+@[instance_reducible] def posDecEqInt : DecidableEq (Pos Int) := fun a b =>
+  decidable_of_iff (a.x = b.x ∧ a.y = b.y) (by cases a; cases b; simp only [Pos.mk.injEq])
+attribute [local instance] posDecEqInt
+
+def L : Option PathType := some PathType.linear
+
+theorem allLinear_of_forall {P : Type} [Scalar P] [Trig P] (pts : List (PathControlPoint P))
+    (h : ∀ cp ∈ pts, cp.pathType = none ∨ cp.pathType = some PathType.linear) : AllLinear pts := by
+  intro cp hcp t ht
+  rcases h cp hcp with h | h
+  · rw [h] at ht; cases ht
+  · rw [h] at ht; cases ht; rfl
+
+/-- `L (0,0), (100,0) L` → 2 vertices (the type on the last point adds nothing). -/
+example : refLinearNatural [cp 0 0 L, cp 100 0 L] = [pt 0 0, pt 100 0] := by decide
+/-- `(0,0) L, (50,0), (50,0) L, (50,80)`: the joint `(50,0)` (control point 2) appears once, not twice — the path is the
+four control-point positions (control point 1 has the same position and is kept). -/
+example : refLinearNatural [cp 0 0 L, cp 50 0, cp 50 0 L, cp 50 80] = [pt 0 0, pt 50 0, pt 50 0, pt 50 80] := by decide
+/-- first point typed → it is not duplicated. -/
+example : refLinearNatural [cp 0 0 L, cp 100 0] = [pt 0 0, pt 100 0] := by decide
+/-- first point untyped. -/
+example : refLinearNatural [cp 0 0, cp 100 0, cp 100 50 L, cp 0 50] = [pt 0 0, pt 100 0, pt 100 50, pt 0 50] := by decide
+example : refLinearNatural ([] : List (PathControlPoint Int)) = [] := by decide
+example : refLinearNatural [cp 7 8 L] = [pt 7 8] := by decide
+
+/-- the model on the same inputs (osu! mode, fuel 10, fresh buffers): same paths. -/
+example : ((calculatePath (F := Int) 10 GameMode.osu [cp 0 0 L, cp 100 0 L] {}).toOption.map (·.1.path)) =
+    some [pt 0 0, pt 100 0] := by decide
+example : ((calculatePath (F := Int) 10 GameMode.osu [cp 0 0 L, cp 50 0, cp 50 0 L, cp 50 80] {}).toOption.map
+    (·.1.path)) = some [pt 0 0, pt 50 0, pt 50 0, pt 50 80] := by decide
+example : ((calculatePath (F := Int) 10 GameMode.osu [cp 0 0 L, cp 100 0] {}).toOption.map (·.1.path)) =
+    some [pt 0 0, pt 100 0] := by decide
+
+/-- non-vacuity of `calculatePath_linear_eq_ref` / `calculatePath_linear_positions`: the hypotheses hold on
+`(0,0) L, (50,0), (50,0) L, (50,80)`, and the call succeeds. -/
+example : ∃ b opt, calculatePath (F := Int) 10 GameMode.osu [cp 0 0 L, cp 50 0, cp 50 0 L, cp 50 80] {} = .ok (b, opt) ∧
+    AllLinear [cp 0 0 L, cp 50 0, cp 50 0 L, cp 50 80] ∧
+    (∀ c ∈ [cp 0 0 L, cp 50 0, cp 50 0 L, cp 50 80].dropLast, c.pathType ≠ none → Pos.eq c.pos c.pos = true) ∧
+    b.path = [pt 0 0, pt 50 0, pt 50 0, pt 50 80] := by
+  have hl : AllLinear [cp 0 0 L, cp 50 0, cp 50 0 L, cp 50 80] :=
+    allLinear_of_forall _ (by decide)
+  cases h : calculatePath (F := Int) 10 GameMode.osu [cp 0 0 L, cp 50 0, cp 50 0 L, cp 50 80] {} with
+  | error e =>
+    have : (calculatePath (F := Int) 10 GameMode.osu [cp 0 0 L, cp 50 0, cp 50 0 L, cp 50 80] {}).toOption.isSome = true := by
+      decide
+    rw [h] at this; cases this
+  | ok r =>
+    obtain ⟨b, opt⟩ := r
+    have hrefl : ∀ c ∈ [cp 0 0 L, cp 50 0, cp 50 0 L, cp 50 80].dropLast, c.pathType ≠ none →
+        Pos.eq c.pos c.pos = true := by decide
+    exact ⟨b, opt, rfl, hl, hrefl, (calculatePath_linear_positions 10 GameMode.osu _ {} b opt hl hrefl h).1⟩
+
+/-! ### `ref_length_le` is FALSE without the no-NaN hypothesis -/
+
+def zpt (x : ZN) (y : ZN) : Pos ZN := ⟨x, y⟩
+
+/-- a typed first point with a NaN coordinate is emitted twice: 2 control points, 3 path vertices. -/
+example : (refLinearNatural [⟨zpt ZN.nan (ZN.num 0), L⟩, ⟨zpt (ZN.num 1) (ZN.num 0), none⟩]).length = 3 := by decide
+/-- a typed interior joint with a NaN coordinate is emitted twice: 3 control points, 4 path vertices. -/
+example : (refLinearNatural [⟨zpt (ZN.num 0) (ZN.num 0), none⟩, ⟨zpt ZN.nan (ZN.num 0), L⟩,
+    ⟨zpt (ZN.num 1) (ZN.num 0), none⟩]).length = 4 := by decide
+
+/-- so the bound `|path| ≤ |points|` does not hold for every equality: -/
+theorem ref_length_le_false : ¬ ∀ (pts : List (PathControlPoint ZN)), (refLinearNatural pts).length ≤ pts.length := by
+  intro h
+  exact absurd (h [⟨zpt ZN.nan (ZN.num 0), L⟩, ⟨zpt (ZN.num 1) (ZN.num 0), none⟩]) (by decide)
+
+attribute [local instance] C16.trigStub32
+
+def nan32 : Float32 := Float32.ofBits 0x7fc00000
+
+/-- the same on the driver's `Float32`/`Float` instance, on the MODEL: `calculate_path` on `(NaN,0) L, (1,0)` returns a
+path of 3 vertices for 2 control points. -/
+theorem calculatePath_nan_joint_float32 :
+    ((calculatePath (F := Float) 10 GameMode.osu
+      [(⟨⟨nan32, 0⟩, L⟩ : PathControlPoint Float32), ⟨⟨1, 0⟩, none⟩] {}).toOption.map (·.1.path.length)) = some 3 := by
+  decide +kernel
+
+end Examples
 
 end Rosu.C16
